@@ -59,6 +59,7 @@ type kase struct {
 	rootID     map[common.Hash]int
 	maxH       uint64
 	expectHead int    // P expecthead <id>: the honest longer fork whose tip must be the head after all calls (0: none)
+	inflate    int    // P inflate <n>: the recording database reports batch sizes n times larger (reaches size thresholds)
 	obsH       uint64 // heights 0..obsH are observed (fixed when the case is built)
 }
 
@@ -161,6 +162,9 @@ func buildInto(k *kase, l string) (*kase, error) {
 	case "P":
 		if len(f) == 3 && f[1] == "expecthead" {
 			k.expectHead, _ = strconv.Atoi(f[2])
+		}
+		if len(f) == 3 && f[1] == "inflate" {
+			k.inflate, _ = strconv.Atoi(f[2])
 		}
 	case "N":
 		if len(f) != 6 {
